@@ -21,6 +21,49 @@ use crate::{
 
 use crate::compile;
 
+/// Deepest nesting of expressions inside one another (parentheses, list and
+/// map literals, call arguments, indexes, conditional branches, match arms,
+/// f-string segments). The parser recurses once per level, so without a bound
+/// a long enough run of "(((((" exhausts the stack and aborts the process.
+/// The CEL language definition asks for at least 12 levels.
+const MAX_EXPRESSION_NESTING: usize = 32;
+
+/// Longest run of prefix operators ("!!!!x", "----x"), parsed recursively too.
+const MAX_PREFIX_RUN: usize = 256;
+
+thread_local! {
+    // Per thread rather than per compiler: the segments of an f-string are
+    // compiled by a nested compiler and count towards the same expression.
+    static EXPRESSION_NESTING: std::cell::Cell<usize> = std::cell::Cell::new(0);
+    static PREFIX_RUN: std::cell::Cell<usize> = std::cell::Cell::new(0);
+}
+
+/// Releases one level of a nesting counter when the recursive call returns,
+/// however it returns.
+struct DepthGuard(&'static std::thread::LocalKey<std::cell::Cell<usize>>);
+
+impl DepthGuard {
+    fn enter(
+        counter: &'static std::thread::LocalKey<std::cell::Cell<usize>>,
+        limit: usize,
+    ) -> Option<DepthGuard> {
+        counter.with(|c| {
+            if c.get() >= limit {
+                None
+            } else {
+                c.set(c.get() + 1);
+                Some(DepthGuard(counter))
+            }
+        })
+    }
+}
+
+impl Drop for DepthGuard {
+    fn drop(&mut self) {
+        self.0.with(|c| c.set(c.get() - 1));
+    }
+}
+
 pub struct CelCompiler<'l> {
     tokenizer: &'l mut dyn Tokenizer,
     bindings: BindContext<'l>,
@@ -59,6 +102,18 @@ impl<'l> CelCompiler<'l> {
     }
 
     fn parse_expression(&mut self) -> CelResult<(CompiledProg, AstNode<Expr>)> {
+        let _level = match DepthGuard::enter(&EXPRESSION_NESTING, MAX_EXPRESSION_NESTING) {
+            Some(guard) => guard,
+            None => {
+                return Err(SyntaxError::from_location(self.tokenizer.location())
+                    .with_message(format!(
+                        "Expression is nested more than {} levels deep",
+                        MAX_EXPRESSION_NESTING
+                    ))
+                    .into())
+            }
+        };
+
         if let Some(&TokenWithLoc {
             token: Token::Match,
             loc: match_loc,
@@ -848,6 +903,18 @@ impl<'l> CelCompiler<'l> {
     }
 
     fn parse_not_list(&mut self) -> CelResult<(CompiledProg, AstNode<NotList>)> {
+        let _run = match DepthGuard::enter(&PREFIX_RUN, MAX_PREFIX_RUN) {
+            Some(guard) => guard,
+            None => {
+                return Err(SyntaxError::from_location(self.tokenizer.location())
+                    .with_message(format!(
+                        "More than {} prefix operators in a row",
+                        MAX_PREFIX_RUN
+                    ))
+                    .into())
+            }
+        };
+
         match self.tokenizer.peek()? {
             Some(&TokenWithLoc {
                 token: Token::Not,
@@ -881,6 +948,18 @@ impl<'l> CelCompiler<'l> {
     }
 
     fn parse_neg_list(&mut self) -> CelResult<(CompiledProg, AstNode<NegList>)> {
+        let _run = match DepthGuard::enter(&PREFIX_RUN, MAX_PREFIX_RUN) {
+            Some(guard) => guard,
+            None => {
+                return Err(SyntaxError::from_location(self.tokenizer.location())
+                    .with_message(format!(
+                        "More than {} prefix operators in a row",
+                        MAX_PREFIX_RUN
+                    ))
+                    .into())
+            }
+        };
+
         match self.tokenizer.peek()? {
             Some(&TokenWithLoc {
                 token: Token::Minus,
